@@ -25,10 +25,11 @@ def proj(x):
     if isinstance(x, dict):
         return {'t': 'd', 'v': [[('@' if k == '__vallue__' else k), proj(v)] for k, v in x.items() if k not in ('parseinfo', '__parseinfo__')], 'pi': []}
     if isinstance(x, (list, tuple)):
-        return {'t': 'l', 'c': True, 'v': [proj(v) for v in x]}
+        # a plain list is an OPEN list for the CST algebra (contexts/cst.py: islist), tuples and closedlists are closed
+        return {'t': 'l', 'c': type(x) is not list, 'v': [proj(v) for v in x]}
     if hasattr(x, '__tag__'):          # the tagging action of the C06 family (PegValues!Tagged)
         return {'t': 'g', 'r': x.__tag__, 'v': proj(x.v)}
-    return {'t': 's', 'v': list(repr(x))}
+    return {'t': 'x', 'v': f'{type(x).__name__}@{id(x):x}'}      # an opaque object (result of a semantic action)
 
 
 def install():
